@@ -255,7 +255,8 @@ type Prim struct {
 
 // Holds: conjunction k (facts of function context) establishes p.
 func (s *Sem) Holds(k Conj, p Prim) bool {
-	return s.holds(k, p, 0, func(v ssa.Value) ssa.Value { return Unwrap(v) })
+	// a named boolean (x := a && b) that is known on this path says what its operand says
+	return s.holds(s.saturateBool(k), p, 0, func(v ssa.Value) ssa.Value { return Unwrap(v) })
 }
 
 func (s *Sem) holds(k Conj, p Prim, depth int, resolve func(ssa.Value) ssa.Value) bool {
